@@ -548,8 +548,21 @@ func Select(a, i *Term) *Term {
 				a = a.Args[0]
 				continue
 			}
+			if j.IsInt() && j.Int.Sign() < 0 && nonNegRef[i] {
+				// a pre-state reference never aliases a cell allocated by this function
+				a = a.Args[0]
+				continue
+			}
 		case "constarr":
 			return a.Args[0]
+		case "hext":
+			// heap after a call that only allocates: old cells keep their content
+			old, fresh, lw := a.Args[0], a.Args[1], a.Args[2]
+			c := Ge(i, lw)
+			if nonNegRef[i] || (i.IsInt() && lw.IsInt() && i.Int.Cmp(lw.Int) >= 0) {
+				c = TTrue
+			}
+			return Ite(c, Select(old, i), Select(fresh, i))
 		case "var":
 			if v := initImageLookup(a, i); v != nil {
 				return v
@@ -581,6 +594,13 @@ func Store(a, i, v *Term) *Term {
 }
 
 func ConstArr(s *Sort, v *Term) *Term { return mk("constarr", s, v) }
+
+// HeapExt: the heap after code that may only allocate new cells (below lw).
+func HeapExt(old, lw *Term) *Term {
+	fresh := Fresh("Hfresh", old.Sort)
+	freshCounter++
+	return intern(&Term{Op: "hext", Sort: old.Sort, Args: []*Term{old, fresh, lw}, Str: fmt.Sprintf("Hext!%d", freshCounter)})
+}
 
 func Mk(s *Sort, args ...*Term) *Term {
 	if len(args) != len(s.Fields) {
@@ -842,7 +862,7 @@ func (t *Term) head() string {
 			return t.Str + ".0"
 		}
 		return t.Str
-	case "var", "bvar":
+	case "var", "bvar", "hext":
 		return smtName(t.Str)
 	}
 	return ""
@@ -943,6 +963,8 @@ func usedSorts(order []*Term) []*Sort {
 			out = append(out, s)
 		}
 	}
+	add(SSlice)
+	add(SIface)
 	for _, t := range order {
 		add(t.Sort)
 		for _, b := range t.Bound {
@@ -952,7 +974,47 @@ func usedSorts(order []*Term) []*Sort {
 	return out
 }
 
+// imageFacts: for every initial heap H@0 mentioned, the cells fixed by package
+// initialisation whose reference literal occurs in the terms (to a fixpoint).
+func imageFacts(ts []*Term) []*Term {
+	var facts []*Term
+	done := map[string]bool{}
+	work := ts
+	for len(work) > 0 {
+		order, _ := collect(work)
+		work = nil
+		heaps := map[*Term]bool{}
+		lits := map[string]bool{}
+		for _, t := range order {
+			if t.Op == "var" && strings.HasSuffix(t.Str, "@0") {
+				if _, ok := initImage[t.Str]; ok {
+					heaps[t] = true
+				}
+			}
+			if t.Op == "int" && t.Int.Cmp(big.NewInt(1000)) > 0 {
+				lits[t.Int.String()] = true
+			}
+		}
+		for h := range heaps {
+			img := initImage[h.Str]
+			for k, val := range img {
+				if !lits[k] || done[h.Str+"#"+k] {
+					continue
+				}
+				done[h.Str+"#"+k] = true
+				ref, _ := new(big.Int).SetString(k, 10)
+				f := mk("=", SBool, mk("select", h.Sort.Elem, h, IntBig(ref)), val)
+				facts = append(facts, f)
+				work = append(work, f)
+			}
+		}
+	}
+	sort.Slice(facts, func(i, j int) bool { return facts[i].id < facts[j].id })
+	return facts
+}
+
 func (sc *Script) Render(logic string, getModel bool) string {
+	sc.Asserts = append(imageFacts(sc.Asserts), sc.Asserts...)
 	order, uses := collect(sc.Asserts)
 	var b strings.Builder
 	if getModel {
@@ -974,7 +1036,7 @@ func (sc *Script) Render(logic string, getModel bool) string {
 	var vars []*Term
 	apps := map[string]*Term{}
 	for _, t := range order {
-		if t.Op == "var" {
+		if t.Op == "var" || t.Op == "hext" {
 			vars = append(vars, t)
 		}
 		if t.Op == "app" && !definedFuncs[t.Str] {
@@ -1045,6 +1107,29 @@ const preludeBase = `(define-fun go_div ((a Int) (b Int)) Int (ite (>= a 0) (ite
 (define-fun go_rem ((a Int) (b Int)) Int (- a (* b (go_div a b))))
 (define-fun round_half_away ((x Real)) Int (ite (>= x 0.0) (to_int (+ x 0.5)) (- (to_int (+ (- x) 0.5)))))
 `
+
+// nonNegRef: terms known to denote pre-state references (>= 0).
+var nonNegRef = map[*Term]bool{}
+
+// preState: the term reads only parameters and the initial heap.
+func preState(t *Term) bool {
+	switch t.Op {
+	case "var":
+		return strings.HasPrefix(t.Str, "p$") || strings.HasSuffix(t.Str, "@0")
+	case "sel":
+		return preState(t.Args[0])
+	case "select":
+		return preState(t.Args[0]) && (preState(t.Args[1]) || t.Args[1].ground)
+	case "+", "-":
+		for _, a := range t.Args {
+			if !a.ground && !preState(a) {
+				return false
+			}
+		}
+		return true
+	}
+	return false
+}
 
 // initImageLookup: hook filled by the global-initialiser interpreter.
 var initImage = map[string]map[string]*Term{} // heap var name -> ref literal text -> value
